@@ -1021,7 +1021,7 @@ def run(ctx):
         case = G.gen_verbatim(rng, fmt, strategy, force, opts=o, inner=True if i % 4 == 0 else None)
         account(ctx, case, execute(ctx, case))
     # 2i. the same history while the process-wide warning filter is 'error' / 'ignore' / 'default': same outcome
-    for i in range(ctx.budget(330, 7000)):
+    for i in range(ctx.budget(260, 7000)):
         strategy = "warning" if i % 2 == 0 else rng.choice(M.STRATEGIES)
         force = rng.choice(M.subsets()) if strategy == "merge" else []
         fmt = rng.choice(["gff3", "gtf"])
